@@ -187,6 +187,12 @@ package atree
 //@   assume rootReady(a) because "tree invariant at the root of the parent (composition)"
 //@   ensures[C11] !old(has(a.mutableElementIndex, vid)) && (old(inlinedC(c)) || old(inlinableC(c, maxInlineSize))) ==> !found && err == nil && parentUntouched()
 //@   ensures[C10] !old(inlinedC(c)) && !old(inlinableC(c, maxInlineSize)) ==> found && err == nil && parentUntouched()
+//@   ensures[C11] (old(inlinedC(c)) || old(inlinableC(c, maxInlineSize))) && old(has(a.mutableElementIndex, vid)) && old(is(a.root, *ArrayDataSlab)) &&
+//@        old(a.mutableElementIndex[vid]) < old(len(as(a.root, *ArrayDataSlab).elements)) &&
+//@        !is(old(as(a.root, *ArrayDataSlab).elements[a.mutableElementIndex[vid]]), WrapperStorable) &&
+//@        is(old(as(a.root, *ArrayDataSlab).elements[a.mutableElementIndex[vid]]), Slab) &&
+//@        !is(old(as(a.root, *ArrayDataSlab).elements[a.mutableElementIndex[vid]]), SlabIDStorable) &&
+//@        !vidEq(vid, old(sid(as(a.root, *ArrayDataSlab).elements[a.mutableElementIndex[vid]]))) ==> !found && err == nil && parentUntouched()
 //@   ensures[C11] !found && err == nil ==> parentUntouched()
 //@   modifies heap, ghost.sto, ghost.stored, ghost.touched, ghost.notified, alloc
 
